@@ -130,6 +130,12 @@ type Transfer struct {
 	Buf []byte
 	// MaxZeroReads bounds consecutive (0, nil) reads (default 64).
 	MaxZeroReads int
+	// WriterClosed: the writing side has ended the stream after its last Write. The Read that completes the
+	// payload may then carry the end of the stream (n > 0 together with io.EOF, as io.Reader allows): Drain
+	// accepts an error from exactly that Read (kept in EndErr) instead of calling it an error on a healthy
+	// connection.
+	WriterClosed bool
+	EndErr       error
 
 	// results
 	Received      int
@@ -239,6 +245,10 @@ func (t *Transfer) Drain() *Problem {
 			return p
 		}
 		if err != nil {
+			if t.WriterClosed && t.Received == t.Accepted {
+				t.EndErr = err // the last bytes came together with the end of the stream
+				return nil
+			}
 			return t.fail("read-error-on-healthy-conn", "Read returned %v after %d of %d accepted bytes (n=%d)", err, t.Received, t.Accepted, n)
 		}
 		if t.LastEmpty {
@@ -254,6 +264,78 @@ func (t *Transfer) Drain() *Problem {
 		}
 	}
 	return nil
+}
+
+// RunClosing is Run for the LAST transfer of a connection: the writer ends the stream (closeW) BEFORE the
+// reader has read what the last Write sent (everything, unless DrainEach), so the end of the stream is in
+// flight behind the data - and, when the connection underneath delivers that way, arrives in the same Read
+// call as the last segment. The reader then reads to the end (DrainToEnd).
+func (t *Transfer) RunClosing(closeW func() error) (end string, p *Problem) {
+	for wi := range t.Writes {
+		if p := t.WriteOne(wi); p != nil {
+			return "", p
+		}
+		if t.DrainEach && wi < len(t.Writes)-1 {
+			if p := t.Drain(); p != nil {
+				return "", p
+			}
+		}
+	}
+	closeW()
+	t.WriterClosed = true
+	return t.DrainToEnd(4)
+}
+
+// DrainToEnd reads until the first error on a stream that the writer ended after its last Write over a
+// connection that delivered every byte: the bytes of EVERY Read - the one that returns the error included -
+// must be the payload at that position (ReadOnce), the error must not come before all accepted bytes were
+// received (they all reached this end of the connection; a layer that drops the bytes that arrived in the
+// same call as the end of the stream loses them), and up to maxAfter further Reads must not return a byte.
+// Returns how the stream ended: "eof[+data]" / "error[+data]" (+data: the error came with the last bytes).
+func (t *Transfer) DrainToEnd(maxAfter int) (string, *Problem) {
+	if t.MaxZeroReads == 0 {
+		t.MaxZeroReads = 64
+	}
+	if t.Arm != nil {
+		t.Arm()
+	}
+	zero := 0
+	for {
+		n, err, p := t.ReadOnce()
+		if p != nil {
+			return "", p
+		}
+		if err != nil {
+			if t.Received < t.Accepted {
+				return "", t.fail("stream-ended-before-all-bytes-were-delivered", "Read returned n=%d err=%v at %d of %d bytes; the writer had written all of them and then closed, and the connection underneath delivered every byte before its end", n, err, t.Received, t.Accepted)
+			}
+			t.EndErr = err
+			end := "error"
+			if err == io.EOF {
+				end = "eof"
+			}
+			if n > 0 {
+				end += "+data"
+			}
+			for i := 0; i < maxAfter; i++ {
+				if _, _, p := t.ReadOnce(); p != nil { // any further byte is "received-more-than-written"
+					return "", p
+				}
+			}
+			return end, nil
+		}
+		if t.LastEmpty {
+			continue
+		}
+		if n == 0 {
+			zero++
+			if zero > t.MaxZeroReads {
+				return "", t.fail("reader-makes-no-progress", "%d consecutive (0, nil) reads with a non-empty buffer at %d of %d bytes of an ended stream", zero, t.Received, t.Accepted)
+			}
+		} else {
+			zero = 0
+		}
+	}
 }
 
 // ReadOnce does one Read with the policy's buffer size (or with an empty buffer when the policy's pattern of
